@@ -188,7 +188,7 @@ def run(rep, work, tier, seed, props, replay=None):
         i = sorted(bad, key=lambda i: len(builders[i].stmts))[0]
         rep.violation({"kind": "final values or gradients differ from the model, in which a raising statement is a no-op", "stmts": builders[i].stmts, "n_disagreements": len(bad)})
     # pointer-level correspondence (Model/Heap.v): half of the in-place statements fail by design, clear_graph() between statements (stale views)
-    heap_cov = heapcorr.run(rep, work, seed + 101, 2500 if tier == "thorough" else 400, 30 if tier == "thorough" else 18, replay=replay, tag="c13heap", p_fail=0.5, p_clear=0.08,
+    heap_cov = heapcorr.run(rep, work, seed + 101, 2500 if tier == "thorough" else 400, 30 if tier == "thorough" else 18, replay=replay, tag="c13heap", p_fail=0.5, p_clear=0.05, p_back=0.07,
                             label="pointer-level heap (failing in-place operations)")
     if not props["ok"]:
         rep.violation({"kind": "proof obligations of Props/C13.v no longer check", "broken": "Props/C13.v", "log": props["log"][-1500:]}, no_input=not (real or bad))
